@@ -299,9 +299,39 @@ pub fn merkle_replay(inp: &str, outp: &str, seed: u64) -> Result<()> {
                 if at < MAXD { w.pos[at] = 4; }
             }
             let bad_limb = [P, P + 1, u64::MAX][rng.gen_range(0..3)];
+            let alias_root = c["rootok"].as_u64().unwrap() == 1 && c["canon"] != "all";
+            // the fold a verifier without the canonicity guard would compute: every limb reduced mod p
+            let refold = |leaf: &[u8; 32], sibs: &Vec<[[u8; 32]; 3]>, pos: &Vec<u8>| -> [u8; 32] {
+                let red = |b: &[u8; 32]| -> [u64; 4] { let d = digest(b); [d[0] % P, d[1] % P, d[2] % P, d[3] % P] };
+                let mut cur = red(leaf);
+                for (l, s) in sibs.iter().enumerate() {
+                    cur = leaf::node(&cur, &[red(&s[0]), red(&s[1]), red(&s[2])], pos[l] as usize);
+                }
+                bytes(&cur)
+            };
             match c["canon"].as_str().unwrap() {
-                "leaf" => { let k = rng.gen_range(0..4); leaf_hash[8 * k..8 * k + 8].copy_from_slice(&bad_limb.to_le_bytes()); }
-                "sibling" => { let l = rng.gen_range(0..nsibs.len()); let k = rng.gen_range(0..4); let s = rng.gen_range(0..3); nsibs[l][s][8 * k..8 * k + 8].copy_from_slice(&bad_limb.to_le_bytes()); }
+                "leaf" => {
+                    let k = rng.gen_range(0..4);
+                    if alias_root && depth > 0 {
+                        // near miss: the alias v + p of a genuine small limb v, the root is the fold of the genuine value
+                        let v: u64 = rng.gen_range(0..0xFFFF_FFFEu64);
+                        leaf_hash[8 * k..8 * k + 8].copy_from_slice(&(v + P).to_le_bytes());
+                        root = refold(&leaf_hash, &nsibs, &honest_pos);
+                    } else {
+                        leaf_hash[8 * k..8 * k + 8].copy_from_slice(&bad_limb.to_le_bytes());
+                        if alias_root { root = leaf_hash; }
+                    }
+                }
+                "sibling" => {
+                    let l = rng.gen_range(0..nsibs.len()); let k = rng.gen_range(0..4); let s = rng.gen_range(0..3);
+                    if alias_root {
+                        let v: u64 = rng.gen_range(0..0xFFFF_FFFEu64);
+                        nsibs[l][s][8 * k..8 * k + 8].copy_from_slice(&(v + P).to_le_bytes());
+                        root = refold(&leaf_hash, &nsibs, &honest_pos);
+                    } else {
+                        nsibs[l][s][8 * k..8 * k + 8].copy_from_slice(&bad_limb.to_le_bytes());
+                    }
+                }
                 _ => {}
             }
             if c["rootok"].as_u64().unwrap() == 0 && c["canon"] == "all" && c["pval"] == "ok" && c["plen"] == "eq" {
